@@ -1091,7 +1091,7 @@ func run(c *hx.Ctx) error {
 							}
 						}
 					}
-					for _, s := range sweeps() {
+					for _, s := range append(sweeps(), arities()...) {
 						if s.name == f[2] {
 							runCase(c, s, n, v, rows)
 						}
@@ -1165,6 +1165,13 @@ func run(c *hx.Ctx) error {
 			if cap > limit && cap < 70000 {
 				runCase(c, s, (cap-s.base)/max(s.scale, 1)+1, variant{}, rows)
 			}
+		}
+	}
+	for _, s := range arities() {
+		ns := aritySizes(c, c.R.Intn)
+		sort.Ints(ns)
+		for _, n := range ns {
+			runCase(c, s, n, variant{}, rows)
 		}
 	}
 	for _, m := range []int{40, 130, 300, c.N(22000, 70000)} {
